@@ -50,6 +50,17 @@ def check_output(res, what, inp, ep, model_out, pairs):
                 pts.add(s + d)
                 pts.add(e + d)
         starts = [s for s, _ in pairs]
+        # the statement's exact expectation: zero-length inputs vanish; inputs whose interiors overlap are merged; two merged
+        # components sharing only the point p are kept apart by trimming 1 us from the earlier one
+        comps, touch = [], []
+        for s_, e_ in sorted((s, e) for s, e in pairs if s < e):
+            if comps and s_ < comps[-1][1]:
+                comps[-1][1] = max(comps[-1][1], e_)
+            else:
+                if comps and s_ == comps[-1][1]:
+                    touch.append(s_)
+                comps.append([s_, e_])
+        zeros = [s for s, e in pairs if s == e]
         for x in pts:
             inu = G.mem(x, pairs)
             ino = G.mem(x, impl_c)
@@ -57,9 +68,16 @@ def check_output(res, what, inp, ep, model_out, pairs):
                 res.violations.append({"key": {"op": what, "part": "cover_sound"}, "what": "result covers a point outside the union of the inputs",
                                        "input": inp, "impl": impl, "x": x})
                 return
-            if inu and not ino and not any(p - 1000 <= x <= p for p in starts):
+            if inu and not ino:
+                if not any(a <= x <= b for a, b in comps) or any(p - 1000 <= x < p for p in touch):
+                    continue          # a vanished zero-length input, or the trimmed microsecond of a touching neighbour
+                if any(z - 1000 <= x <= z for z in zeros):
+                    res.violations.append({"key": {"op": what, "part": "cover_complete", "zero_length_input_meets_another_input": True},
+                                           "what": "a zero-length input lying inside (or on the end of) another input does not vanish: it cuts 1 us out of the union",
+                                           "input": inp, "impl": impl, "x": x})
+                    return
                 res.violations.append({"key": {"op": what, "part": "cover_complete"},
-                                       "what": "a point of the union farther than 1us before any start is not covered",
+                                       "what": "a point of the union that is not in the trimmed microsecond of a touching neighbour is not covered",
                                        "input": inp, "impl": impl, "x": x})
                 return
 
